@@ -571,9 +571,14 @@ fn run_step(st: &mut State, step: &Value) -> Value {
         "backward" => {
             with_grads = true;
             // the seed: a fresh array, or (seedh) a clone of a live handle - the caller keeps its own handle on it
-            let seed = match step.get("seedh").and_then(|h| h.as_i64()) {
-                Some(h) => Some(st.with_args(&[h], |xs| xs[0].clone())),
-                None => step.get("seed").filter(|s| s.is_object() && s.get("d").is_some()).map(tensor_in),
+            // or (seedv) a reshaped VIEW of a live handle: the seed shares that handle's value buffer
+            let seed = match (step.get("seedh").and_then(|h| h.as_i64()), step.get("seedv").and_then(|h| h.as_i64())) {
+                (Some(h), _) => Some(st.with_args(&[h], |xs| xs[0].clone())),
+                (None, Some(h)) => {
+                    let d = dims_in(&step["seedd"]);
+                    Some(st.with_args(&[h], |xs| xs[0].reshape(d)))
+                }
+                _ => step.get("seed").filter(|s| s.is_object() && s.get("d").is_some()).map(tensor_in),
             };
             st.log.entries.borrow_mut().clear();
             st.log.budget.set(step.get("budget").and_then(|b| b.as_i64()).unwrap_or(100000));
